@@ -164,12 +164,13 @@ func c13Run(c *core.Ctx) {
 			continue
 		}
 		k++
-		// quick: one scenario per worker; thorough: every worker takes its share of every scenario's schedule tree
-		if !c.Thorough() && !c.Mine(int64(k)) {
-			continue
-		}
+		// every worker takes its share of every scenario's schedule tree
 		if only := os.Getenv("VERIF_C12_ONLY"); only != "" && only != sc.Name {
 			continue
+		}
+		if !c.Thorough() && sc.Name == "user-aggregate-with-row-argument-over-partitions" {
+			// nine tenths of the quick tier's executions under the race detector: the quick tier keeps the per-partition statement only
+			sc.SQL = sc.SQL[:strings.Index(sc.SQL, " SELECT g, wsum")]
 		}
 		w.newReports() // anything written so far does not belong to this scenario
 		// thorough: two non-default decisions where the all-default execution has at most 200 choice points (the
@@ -182,9 +183,7 @@ func c13Run(c *core.Ctx) {
 			c.Observe("scenarios_explored_with_two_decisions", fmt.Sprintf("%s: %v", sc.Name, maxS == 2))
 		}
 		e := &gox.Explorer{MaxPreempt: maxS, MaxMapDev: 1, MaxSwitch: maxS, Stop: c.Expired}
-		if c.Thorough() {
-			e.Shard, e.NShards = c.Shard, c.N
-		}
+		e.Shard, e.NShards = c.Shard, c.N
 		nontrivial := int64(0)
 		report := func(choices []int, free bool) {
 			for _, r := range w.newReports() {
@@ -203,9 +202,10 @@ func c13Run(c *core.Ctx) {
 			report(choices, false)
 		})
 		// the same body without the scheduler, as the guidance asks: real threads, real thresholds lowered the same way
-		free := 3
+		// per worker process: 16 x 1 runs quick, 16 x 4 thorough
+		free := 1
 		if c.Thorough() {
-			free = 20
+			free = 4
 		}
 		fsc := sc
 		if sc.FreeRows > 0 {
@@ -223,12 +223,8 @@ func c13Run(c *core.Ctx) {
 		c.EvalN(int64(e.Executions+free), nontrivial)
 		c.Add("free_running_executions", int64(free))
 		c.Max("max_tasks", int64(e.MaxTasks))
-		if c.Thorough() {
-			c.Observe("scenarios", sc.Name)
-			c.Add("scheduled_executions["+sc.Name+"]", int64(e.Executions))
-		} else {
-			c.Observe("scenarios", fmt.Sprintf("%s: %d scheduled executions, %d tasks max", sc.Name, e.Executions, e.MaxTasks))
-		}
+		c.Observe("scenarios", sc.Name)
+		c.Add("scheduled_executions["+sc.Name+"]", int64(e.Executions))
 		if e.Capped {
 			c.Incomplete("scenario " + sc.Name + ": time budget reached before all schedules within the bound were run")
 		}
@@ -237,6 +233,24 @@ func c13Run(c *core.Ctx) {
 		}
 	}
 	_ = filepath.Join
+	// family builtin-calls: every built-in / aggregate / analytic function over a table split over real threads
+	runs := 2
+	if c.Thorough() {
+		runs = 10
+	}
+	w.newReports()
+	first := true
+	goxFnFamily(c, runs, nil, func(call goxFnCall, sc goxScenario) {
+		rs := w.newReports()
+		if first {
+			// the single-worker run comes first: what it leaves in the log is not a report about workers
+			first = false
+		}
+		for _, r := range rs {
+			c.Violate(raceSignature(r), fmt.Sprintf("scenario %s %q, 4 workers on real threads over %d rows:\n%s", sc.Name, sc.SQL, goxFnRows, strings.TrimSpace(r)),
+				c13Payload{Scenario: sc, Free: true, Report: r})
+		}
+	})
 }
 
 func c13Replay(c *core.Ctx, payload json.RawMessage) {
